@@ -125,7 +125,7 @@ R2 = ['~id:q~ $[*][ yes() ]']
     outside="references to groups of several members; ':first'; 3 runs",
     encodes=["csvpath/matching/productions/reference.py:Reference._variable_value/_header_value/_get_value_from_results/get_results",
              "csvpath/managers/results/results_manager.py:ResultsManager.get_variables/data_file_for_reference/_find_instance", "csvpath/util/reference_parser.py:ReferenceParser"],
-    tiers={"quick": {"timeout": 1800, "K": {"LO": -1, "HI": 2}, "shards": product(twice=[False, True], w1=[0], w2=[1])},
+    tiers={"quick": {"timeout": 1800, "K": {"LO": -1, "HI": 1}, "shards": product(twice=[False, True], w1=[0], w2=[1])},
            "thorough": {"timeout": 6000, "K": {"LO": -2, "HI": 3}, "shards": product(twice=[False, True], w1=[0, 2])}},
 )
 def references(twice: bool, v1: int, w1: int, v2: int, w2: int) -> str:
